@@ -1286,12 +1286,8 @@ func c07Walk(r *hx.Result, rng *hx.Rng, p *c07Prim, synced bool, alterPerTx int,
 			if pre == 0 {
 				continue
 			}
+			// (tx 1 included: since the repair of performPrecommit a re-replicated tx 1, BlTxID = 0, gets the zero BlRoot)
 			id := cid + uint64(rng.Intn(int(pre-cid)+2))
-			if id <= 1 && pre >= 1 {
-				// never discard tx 1 once something was precommitted: the pooled Tx then keeps a non-zero BlRoot and tx 1
-				// (BlTxID = 0) can no longer be replicated correctly — known finding, exercised by probe (5)
-				id = 2
-			}
 			rp.discard(id)
 			r.Count("walk.discard")
 			rp.corrState()
